@@ -1,6 +1,7 @@
 import GoflowModel.Basic.Dec
 import GoflowModel.Basic.DateText
 import GoflowModel.Engine.Determinism
+import GoflowModel.Engine.Concurrent
 import GoflowModel.Driver.Util
 /-
   numrender <coefficient> <exponent>        →  ok <hex text>
@@ -87,6 +88,17 @@ def handle : List String → Option String
     let ns ← (if names == "-" then some [] else (names.splitOn ",").mapM decL)
     let sorted := Determinism.collectSorted (fun a b => decide (a ≤ b)) id (ns.map String.ofList)
     some ("ok " ++ ",".intercalate (sorted.map fun s => encL s.toList))
+  | ["cacheseq", keys] => do
+    -- each request is a thread that runs alone to completion (lock, look/load, store+unlock); key 9 does not exist
+    let ks ← (keys.splitOn ",").mapM (·.toNat?)
+    let key := fun t => ks.getD t 0
+    -- a missing flow is an error: nothing is stored, so it is read again each time (model: never cached)
+    let final := (List.range ks.length).foldl (fun (acc : Concurrent.Cache.St × List Nat) t =>
+      if key t = 9 then (acc.1, acc.2 ++ [9])
+      else
+        let s' := Concurrent.Cache.run key id [t, t, t] acc.1
+        (s', if s'.loads.length > acc.1.loads.length then acc.2 ++ [key t] else acc.2)) (Concurrent.Cache.init, [])
+    some ("reads " ++ ",".intercalate (final.2.map toString))
   | _ => none
 
 end GoflowModel.Driver.Values
